@@ -412,11 +412,43 @@ func c20GRBStream(rt *rapid.T, paths []gen.PathInfo) ([]byte, []int) {
 	return B, offs
 }
 
+func c20RepeatTokens(rt *rapid.T, data []byte) []byte {
+	r := []rune(string(data))
+	toks, _ := recog.Lex(string(data), false)
+	if len(toks) < 2 {
+		return data
+	}
+	i := rapid.IntRange(0, len(toks)-1).Draw(rt, "span_from")
+	n := rapid.IntRange(1, 4).Draw(rt, "span_len")
+	if i+n > len(toks) {
+		n = len(toks) - i
+	}
+	from, to := toks[i].Start, toks[i+n-1].End
+	if from < 0 || to > len(r) || from >= to {
+		return data
+	}
+	times := rapid.IntRange(2, 30).Draw(rt, "span_times")
+	out := string(r[:to]) + strings.Repeat(string(r[from:to]), times-1) + string(r[to:])
+	if len(out) > c20MaxInputLen {
+		out = out[:c20MaxInputLen]
+	}
+	return []byte(out)
+}
+
 func c20Structure(rt *rapid.T, target int) []byte {
 	n := rapid.IntRange(1, 30).Draw(rt, "struct_n") // chains stay below the open finding's signature
 	switch target {
 	case c20GRL:
-		switch rapid.IntRange(0, 4).Draw(rt, "struct_kind") {
+		switch rapid.IntRange(0, 8).Draw(rt, "struct_kind") {
+		case 5:
+			// selectors chained on a call result
+			return []byte("rule D { when F.M()" + strings.Repeat("[0]", n) + " == 1 then Retract(\"D\"); }")
+		case 6:
+			return []byte("rule D { when F.M()" + strings.Repeat(".A", n) + " == 1 then Retract(\"D\"); }")
+		case 7:
+			return []byte("rule D { when F.M()" + strings.Repeat(".N(1)", n) + " == 1 then F.K = \"x\"" + strings.Repeat(".Trim()", n) + "; }")
+		case 8:
+			return []byte("rule D { when F.M()" + strings.Repeat("[\"k\"].A", n/2+1) + " == 1 then Retract(\"D\"); }")
 		case 0:
 			return []byte("rule D { when " + strings.Repeat("(", n) + "true" + strings.Repeat(")", n) + " then Retract(\"D\"); }")
 		case 1:
@@ -545,7 +577,11 @@ func c20GenInput0(rt *rapid.T, paths []gen.PathInfo, stCfg gen.StateCfg) c20Inpu
 	var kinds []string
 	for i := 0; i < rapid.IntRange(1, 3).Draw(rt, "nmut"); i++ {
 		var k string
-		if (target == c20GRL) && rapid.Bool().Draw(rt, "token_level") {
+		if (target == c20GRL) && rapid.IntRange(0, 3).Draw(rt, "token_repeat") == 0 {
+			// a span of 1-4 tokens repeated in place 2-30 times: whatever construct the span happens to be
+			// (a selector, a member, a call, an operator and its operand, a parenthesis) becomes a chain
+			data, k = c20RepeatTokens(rt, data), "token_span_repeated"
+		} else if (target == c20GRL) && rapid.Bool().Draw(rt, "token_level") {
 			var t string
 			t, k = c17Mutate(rt, string(data))
 			data = []byte(t)
